@@ -71,6 +71,17 @@ Record honours (g : query -> list edge) (E : list edge) : Prop := {
   h_complete : forall q e, In e (range_ref E q) -> In e (g q)
 }.
 
+(** A weaker reading of the Go doc — the getter honours minimum time, maximum time and limit with
+    respect to TIME only and delivers exactly as many edges as asked, but breaks ties between equal
+    timestamps in its own way.  It is NOT sufficient ([C16_tiebreak_by_id_needed]). *)
+Definition honours_time_only (g : query -> list edge) (E : list edge) : Prop :=
+  forall q,
+    NoDup (g q)
+    /\ (forall e, In e (g q) -> In e E /\ in_range q e = true)
+    /\ length (g q) = length (take (q_limit q) (filter (in_range q) E))
+    /\ (forall e e', In e (g q) -> In e' E -> in_range q e' = true -> ~ In e' (g q) ->
+                     if 0 <? q_limit q then nano e <= nano e' else nano e' <= nano e).
+
 (** Every time an int64 [Nano] can express lies strictly between Go's zero time and the
     "distant future" the code substitutes for absent time bounds. *)
 Definition representable (E : list edge) : Prop :=
